@@ -1,6 +1,6 @@
 """C13 - cw20: only the current minter mints, and never beyond the cap."""
 from ..engine import show, OPTION
-from ..idioms import (cell_delta, dispatch, entry_points, field_of, loaded_from, nf, storage_items, update_base, NF)
+from ..idioms import (cell_delta, dispatch, entry_points, field_of, loaded_from, nf, storage_items, update_base, NF, order_facts)
 
 ID = "C13"
 CRATE = "cw20_base"
@@ -38,11 +38,8 @@ def cap_guard(p, base, saved_total, before):
         if c[0] == cap and c[1] == "None":
             return True, "cap None"
     limit = ("vfield", cap, "Some", "0")
-    for c in p.conds:
-        t = c[0]
-        if t[0] == "cmp" and t[1] == "lt" and t[2] == limit and t[3] == saved_total and c[1] is False and c[3] <= before:
-            return True, "cap checked"
-        if t[0] == "cmp" and t[1] == "le" and t[2] == saved_total and t[3] == limit and c[1] is True and c[3] <= before:
+    for lo, hi, strict, c in order_facts(p.conds, before=before):
+        if lo == saved_total and hi == limit:
             return True, "cap checked"
     return False, None
 
@@ -129,10 +126,9 @@ def run(ctx):
                 mint = field_of(e.value, "mint")
                 # cap given?  the path decided msg.mint Some and its cap Some
                 capterm = None
-                for c in p.conds:
-                    t = c[0]
-                    if t[0] == "cmp" and t[1] == "lt" and t[3] == ts and c[1] is False and c[3] <= i:
-                        capterm = t[2]
+                for lo, hi, strict, c in order_facts(p.conds, before=i):
+                    if lo == ts and not strict:          # total <= cap, however the test was spelled
+                        capterm = hi
                 if mint[0] == "variant" and mint[2] == "Some":
                     md = mint[3][0][1]
                     cap = dict(md[2]).get("cap") if md[0] == "struct" else None
